@@ -58,7 +58,34 @@ def gen_lines(ctx):
             L.append("srv udp con %s %d" % (v, c))
             L.append("srv udp non %s %d" % (v, c))
             L.append("srv tcp non %s %d" % (v, c))
+    # the glue between the response writer and the application / the wire:
+    #  srvreal: the connection a real udp.Server made for the peer (loopback socket), its handler is the server's wrapper around
+    #           the configured one; `multi` = the datagram's control message names a multicast destination
+    #  srvmux:  the handler is a mux.Router installed with options.WithMux (the writer the application uses is mux's wrapper)
+    #  srvmw:   the same with a middleware that stamps an option on the response message first (only the SetResponse outcome
+    #           is compared then: what such a middleware leaves on the wire is its own business)
+    gc = EDGE_CODES if thorough else [69, 132, 160, 65, 95, 128]
+    for c in gc:
+        for v in ("-", "0", "2", "8", "16", "26", "10", "24"):
+            for m in ("uni", "multi"):
+                L.append("srvreal %s %s %s %d" % (m, rng.choice(["con", "non"]), v, c))
+            L.append("srvmux udp %s %s %d" % (rng.choice(["con", "non"]), v, c))
+            L.append("srvmux tcp non %s %d" % (v, c))
+            L.append("srvmw udp %s %s %d" % (rng.choice(["con", "non"]), v, c))
+            L.append("srvmw tcp non %s %d" % (v, c))
     return L
+
+
+def dl(l):
+    """the line as the driver sees it"""
+    f = l.split()
+    if f[0] == "srvreal":
+        return "srv udp %s %s %s" % (f[2], f[3], f[4])
+    if f[0] == "srvmux":
+        return "srv %s %s %s %s" % (f[1], f[2], f[3], f[4])
+    if f[0] == "srvmw":
+        return "is %s %s" % (f[4], f[3] if f[3] != "-" else "0")   # no option = nothing suppressed = value 0
+    return l
 
 
 def explore(ctx, art):
@@ -68,8 +95,9 @@ def explore(ctx, art):
         return
     model = judge = None
     if art.get("driver"):
-        rc, model, _ = common.pipe_lines([art["driver"], "model"], lines)
-        jl = [l if l.split()[0] in ("is", "digest") else l + " | " + o for l, o in zip(lines, impl)]
+        dls = [dl(l) for l in lines]
+        rc, model, _ = common.pipe_lines([art["driver"], "model"], dls)
+        jl = [l if l.split()[0] in ("is", "digest") else l + " | " + o for l, o in zip(dls, impl)]
         rc2, judge, _ = common.pipe_lines([art["driver"], "judge"], jl)
         if rc or rc2 or len(model) != len(lines) or len(judge) != len(lines):
             ctx.broken.append(("model", "C20 driver run failed", ""))
@@ -102,7 +130,7 @@ def explore(ctx, art):
                                     {"input": [sl], "observed": a, "expected": b}))
                     if not found:
                         ctx.broken.append(("correspondence", "C20 digest differs but no single input does", l))
-            elif f[0] == "is":
+            elif f[0] in ("is", "srvmw"):
                 if j != o:
                     ctx.violations.append(common.Violation(
                         "refused-iff-class-suppressed", "C20:" + l, "%s: implementation %s, RFC 7967 says %s" % (l, o, j),
@@ -147,12 +175,13 @@ def replay(ctx, rep):
         print("replay file names no failing input:", rep.get("no_longer_checks"))
         return 1
     impl = common.run_test_harness(ctx, art["test"], "TestC20", lines, tag="replay")
-    jl = [l if l.split()[0] in ("is", "digest") else l + " | " + o for l, o in zip(lines, impl)]
+    dls = [dl(l) for l in lines]
+    jl = [l if l.split()[0] in ("is", "digest") else l + " | " + o for l, o in zip(dls, impl)]
     rc, judge, _ = common.pipe_lines([art["driver"], "judge"], jl)
     bad = 0
-    for l, o, j in zip(lines, impl, judge):
+    for l, d, o, j in zip(lines, dls, impl, judge):
         print("%s: implementation `%s`  judge `%s`" % (l, o, j))
-        if (l.split()[0] in ("is", "digest") and o != j) or (l.split()[0] not in ("is", "digest") and j != "ok"):
+        if (d.split()[0] in ("is", "digest") and o != j) or (d.split()[0] not in ("is", "digest") and j != "ok"):
             bad += 1
     if bad:
         print("VIOLATION property=C20 replay=(replayed) still reproduces")
